@@ -425,7 +425,17 @@ func (dr *DialogueRunner) RestoreAt(snapshot *Snapshot) error {
 		return fmt.Errorf("dialogue does not contain a node with title [%s]", snapshot.CurrentNode)
 	}
 
-	dr.visitedNodes = snapshot.VisitedNodes
+	// the snapshot must stay independent from the runner: its maps are copied, not adopted
+	dr.visitedNodes = make(map[string]int, len(snapshot.VisitedNodes))
+	for visitedNode, count := range snapshot.VisitedNodes {
+		dr.visitedNodes[visitedNode] = count
+	}
+	dr.variableSnapshot = make(map[string]variable.Value, len(snapshot.Variables))
+	for variable, value := range snapshot.Variables {
+		dr.variableSnapshot[variable] = value
+	}
+	dr.lastStatement = nil
+	dr.commandErrChan = nil
 	dr.variableStorer.Clear()
 	for variable, value := range snapshot.Variables {
 		if value.Boolean != nil {
@@ -470,10 +480,18 @@ func (dr *DialogueRunner) ConvertAndAddCommand(commandID string, command any) er
 // Snapshot returns the state of the dialogue runner as of the last time a node was entered.
 // It can then be used to later restore the state of the dialogue runner.
 func (dr *DialogueRunner) Snapshot() *Snapshot {
+	variables := make(map[string]variable.Value, len(dr.variableSnapshot))
+	for variable, value := range dr.variableSnapshot {
+		variables[variable] = value
+	}
+	visitedNodes := make(map[string]int, len(dr.visitedNodes))
+	for visitedNode, count := range dr.visitedNodes {
+		visitedNodes[visitedNode] = count
+	}
 	return &Snapshot{
-		Variables:    dr.variableSnapshot,
+		Variables:    variables,
 		CurrentNode:  dr.currentNode,
-		VisitedNodes: dr.visitedNodes,
+		VisitedNodes: visitedNodes,
 	}
 }
 
